@@ -991,11 +991,7 @@ def part_S(chk, binary, scratch, res_broken):
 
 
 def load_findings(chk):
-    # TEMPORARY FALLBACK (lead: drop after merging build/kf-C14.json into known_findings.json)
-    if not chk.findings:
-        p = os.path.join(vlib.VERIF, "build", "kf-C14.json")
-        if os.path.exists(p):
-            chk.findings = json.load(open(p))
+    return None
 
 
 def run(chk):
